@@ -403,7 +403,121 @@ def gen_program(r, maxdepth=3, n=10):
     return prog
 
 
-def regions(chk, tier, replay=None):
+GUARD_MSG = "declared parallel_region"
+
+
+def guard_case(region, level):
+    """what the three helpers and the two reductions do on a REAL configuration object with the given counters:
+    (helpers refused, code of the reductions: 0 refused / 1 summed through the communicator / 2 data left alone)"""
+    import types
+    import numpy
+    import quantarhei as qr
+    from quantarhei.core.managers import Manager
+    dc = real_conf(2, 0, True, level, region)
+    calls = []
+
+    class Comm:
+        def Barrier(self):
+            pass
+
+        def Reduce(self, A, B, op=None):
+            calls.append("Reduce")
+            B[...] = 2 * A          # two processes holding the same partial result
+
+        def Allreduce(self, A, B, op=None):
+            calls.append("Allreduce")
+            B[...] = 2 * A
+    dc.comm = Comm()
+    m = Manager()
+    old = m.parallel_conf
+    fake = types.ModuleType("mpi4py")
+    fake.MPI = types.SimpleNamespace(SUM="SUM")
+    had = sys.modules.get("mpi4py")
+    sys.modules["mpi4py"] = fake
+    m.parallel_conf = dc
+    try:
+        refused = []
+        for call in (lambda: qr.block_distributed_range(2, 9), lambda: qr.block_distributed_list(list(range(7))),
+                     lambda: qr.block_distributed_list(list(range(7)), return_index=True),
+                     lambda: qr.block_distributed_array(numpy.arange(7)), lambda: qr.block_distributed_array(numpy.arange(7), return_index=True)):
+            try:
+                call()
+                refused.append(False)
+            except Exception as e:
+                if GUARD_MSG not in str(e):
+                    raise
+                refused.append(True)
+        codes = []
+        for name in ("reduce", "allreduce"):
+            A = numpy.arange(6.0).reshape(2, 3)
+            A0 = A.copy()
+            del calls[:]
+            try:
+                B = getattr(dc, name)(A)
+                res = B if name == "reduce" else A
+                if calls == [name.capitalize()] and numpy.array_equal(res, 2 * A0):
+                    codes.append(1)
+                elif not calls and numpy.array_equal(A, A0) and (name == "allreduce" or numpy.array_equal(B, A0)):
+                    codes.append(2)
+                else:
+                    codes.append(-1)
+            except Exception as e:
+                if GUARD_MSG not in str(e):
+                    raise
+                codes.append(0)
+    finally:
+        m.parallel_conf = old
+        if had is None:
+            del sys.modules["mpi4py"]
+        else:
+            sys.modules["mpi4py"] = had
+    return refused, codes
+
+
+def guards(chk):
+    """refusal outside declared regions and the level in which the reductions sum: real objects against Model/C20.v"""
+    items, meta = [], []
+    for region in (-1, 0, 1, 2, 3):
+        for level in (-1, 0, 1, 2, 3):
+            c = {"kind": "guard", "region": region, "level": level}
+            chk.count("kind:guard")
+            try:
+                refused, codes = guard_case(region, level)
+            except Exception as e:
+                chk.violation("guard:exception", "helpers / reductions with parallel_region=%d parallel_level=%d raised %r" % (region, level, e),
+                              "monitor", c)
+                continue
+            chk.case(("guard", region, level), True, sample={"case": c, "impl": [refused, codes]})
+            if len(set(refused)) != 1 or len(set(codes)) != 1 or codes[0] < 0:
+                chk.violation("guard:inconsistent", "parallel_region=%d parallel_level=%d: the helpers refuse %s (range, list, list+index, array, "
+                              "array+index) and reduce/allreduce do %s (0 refuse, 1 sum, 2 leave alone): they must act together"
+                              % (region, level, refused, codes), "monitor", c)
+                continue
+            if (codes[0] == 1) != (level == 1 and not refused[0]) or refused[0] != (codes[0] == 0):
+                chk.violation("guard:share_without_sum", "parallel_region=%d parallel_level=%d: helpers refused=%s but reductions do %d; work is "
+                              "shared at parallel_level 1 only, so sum-reduced results differ from the serial ones" % (region, level, refused[0], codes[0]),
+                              "monitor", c)
+            items.append("(%s,%s,%s,%s)" % (cm.zlit(region), cm.zlit(level), "true" if refused[0] else "false", cm.zlit(codes[0])))
+            meta.append(c)
+    if not items:
+        return None
+    body = "Definition cs : list (Z*Z*bool*Z) := %s.\nEval vm_compute in (bad guard_agrees cs).\n" % cm.clist(items)
+
+    def judge(rc, out):
+        if rc != 0:
+            chk.violation("correspondence:coq_error", "coqc failed on guard cases: %s" % out[-600:], "correspondence", {"kind": "guard"},
+                          found_input=False)
+            return
+        bad = cm.parse_natlist(cm.parse_evals(out)[0])
+        chk.corr["cases"] += len(items)
+        chk.corr["disagreements"] += len(bad)
+        for i in bad[:3]:
+            chk.violation("correspondence:guard", "refusal / summation observed for %s differs from Model/C20.v (helper, reduce_mode)" % meta[i],
+                          "correspondence", meta[i])
+    return cm.HEADER + "From QV Require Import Model.C20.\n" + body, judge
+
+
+def regions(chk, tier, replay=None, also=None):
     """parallel-region bookkeeping: histories of start/finish on real DistributedConfiguration objects against
     Model/C20regions.v, and whole programs with nested regions run by every simulated rank"""
     r = cm.rng("regions")
@@ -440,7 +554,10 @@ def regions(chk, tier, replay=None):
                  sample={"case": c, "impl": obs})
     if items:
         body = ("Definition cs : list rcase := %s.\nEval vm_compute in (bad rcase_agrees cs).\n" % cm.clist(items))
-        (rc, out), = cm.coq_eval(PID + "_regions", [cm.HEADER + "From QV Require Import Base.Util Model.C20regions.\n" + body])
+        res = cm.coq_eval(PID + "_regions", [cm.HEADER + "From QV Require Import Base.Util Model.C20regions.\n" + body] + ([also[0]] if also else []))
+        (rc, out) = res[0]
+        if also:
+            also[1](*res[1])
         if rc != 0:
             chk.violation("correspondence:coq_error", "coqc failed on region histories: %s" % out[-600:], "correspondence",
                           {"kind": "regions"}, found_input=False)
@@ -502,10 +619,15 @@ def main():
     chk.assumptions = ["MPI transport (Reduce/Allreduce/Send/Recv) is not modelled: a rank is simulated by a stub "
                        "DistributedConfiguration(size, rank, parallel_level=1) installed in the Manager",
                        "Python's // and % on ints with positive divisor are Z.div / Z.modulo",
-                       "parallel regions: real DistributedConfiguration objects with have_mpi/size/rank set by hand and a no-op Barrier"]
+                       "parallel regions: real DistributedConfiguration objects with have_mpi/size/rank set by hand and a no-op Barrier",
+                       "static tie (GenC20.v, GenC20b.v): parallel.py's range functions, the three block_distributed helpers, region bookkeeping, "
+                       "public region wrappers and the guards of reduce/allreduce are translated statement by statement on every run and proved "
+                       "equal to Model/C20.v / Model/C20regions.v; the MPI calls inside reduce/allreduce are matched as text, not modelled"]
     chk.prove()
     import translate
     translate.static_tie(cm, chk, PID, cm.REPO)      # second, static tie: model regenerated from the current source
+    import translate_c20
+    translate_c20.static_tie_b(cm, chk, cm.REPO)     # ... and the helpers, region bookkeeping and reduction guards (GenC20b.v)
     if args.replay:
         rep = json.load(open(args.replay))
         cases = [rep["input"]] if isinstance(rep.get("input"), dict) and rep["input"].get("kind") in ("ranges", "range", "list", "array") else []
@@ -535,7 +657,7 @@ def main():
     run(chk, cases)
     if not args.replay:
         reduce_end_to_end(chk, args.tier)
-        regions(chk, args.tier)
+        regions(chk, args.tier, also=guards(chk))
     else:
         rep = json.load(open(args.replay))
         if isinstance(rep.get("input"), dict) and rep["input"].get("kind") in ("regions", "program"):
